@@ -1,8 +1,9 @@
 // Package c18 drives the real config/conffile.FileConfig: random histories of
 // external file edits, reloads, typed getter calls, observers and write-backs
 // (judged by Trace_FileConfig.tla), the system calls of the write-back recorded
-// with strace in a child process (judged by Trace_FsWrite.tla), and getters
-// racing the reloading goroutine in a child process.  The harness only records;
+// with strace in a child process for every layout of the configuration path (judged by
+// Trace_FsWrite.tla), reloads taken apart at the points where they call out (ilv.go), and
+// getters racing the reloading goroutine in a child process.  The harness only records;
 // TLC judges.
 package c18
 
@@ -65,9 +66,20 @@ func setStamp(path string, sec, ms int) {
 	}
 }
 
-type recObs struct{ notes *[]interface{} }
+type recObs struct {
+	notes *[]interface{}
+	w     *world
+}
 
-func (o *recObs) ApplyConfig(c config.Config) { *o.notes = append(*o.notes, snapshot(c)) }
+func (o *recObs) ApplyConfig(c config.Config) {
+	*o.notes = append(*o.notes, snapshot(c))
+	if w := o.w; w != nil && w.polling && w.applied && !w.notified {
+		// a poll taken apart: the first observer that is called lets the planned actions happen
+		// between the map assignment and the end of the reload
+		w.notified = true
+		w.window("ntf", w.plan.notify)
+	}
+}
 
 // snapshot projects the configuration through its public getters: sorted <<key, GetValue(key)>>.
 func snapshot(c config.Config) []interface{} {
@@ -98,6 +110,13 @@ type world struct {
 	keyset []string
 	sig    []string
 	raw    []byte
+	layout string // how the configuration file is reached (ilv.go)
+	home   string // what WithHomePath is given
+	gate   bool   // the parser is wrapped: polls are taken apart (ilv.go)
+	plan   pollPlan
+	// state of the poll in progress
+	polling, inParse, entered, applied, notified bool
+	fail                                         string
 }
 
 func newWorld(c *core.Ctx, t *core.Trace, r *rand.Rand) *world {
@@ -105,7 +124,7 @@ func newWorld(c *core.Ctx, t *core.Trace, r *rand.Rand) *world {
 	if err != nil {
 		panic(err)
 	}
-	return &world{c: c, t: t, r: r, dir: dir, path: filepath.Join(dir, "whatap.conf"), seen: map[string][]string{}, eol: "\n", final: true}
+	return &world{c: c, t: t, r: r, dir: dir, home: dir, layout: "plain", path: filepath.Join(dir, "whatap.conf"), seen: map[string][]string{}, eol: "\n", final: true}
 }
 
 func (w *world) done() { os.RemoveAll(w.dir) }
@@ -146,11 +165,19 @@ func (w *world) writeFile() []byte {
 			panic(err)
 		}
 	} else {
-		tmp := w.path + ".edit"
+		// an editor that writes a new file and renames it over the old one: over the file the
+		// path leads to, or (one time in four) over the path itself, replacing a symbolic link
+		dst := w.path
+		if w.layout != "plain" && w.r.Intn(4) != 0 {
+			if p, err := filepath.EvalSymlinks(w.path); err == nil {
+				dst = p
+			}
+		}
+		tmp := dst + ".edit"
 		if err := os.WriteFile(tmp, data, 0o644); err != nil {
 			panic(err)
 		}
-		if err := os.Rename(tmp, w.path); err != nil {
+		if err := os.Rename(tmp, dst); err != nil {
 			panic(err)
 		}
 	}
@@ -160,18 +187,26 @@ func (w *world) writeFile() []byte {
 }
 
 func (w *world) reset(gen string, cas int, pre, suf string, excl []string, nobs int) {
+	w.resetPlan(gen, cas, pre, suf, excl, nobs, pollPlan{})
+}
+
+// resetPlan: plan = what happens inside the constructor's own reload (only with w.gate)
+func (w *world) resetPlan(gen string, cas int, pre, suf string, excl []string, nobs int, plan pollPlan) {
 	w.writeFile()
 	ex := make([]core.Bytes, 0)
 	for _, k := range excl {
 		ex = append(ex, core.Str(k))
 	}
 	w.t.Reset(gen, cas, core.Ev{"pre": core.Str(pre), "suf": core.Str(suf), "excl": ex, "nobs": nobs,
-		"file": linesEv(w.lines), "mt": []int{w.sec, w.ms}})
-	opts := []conffile.FileConfigOption{conffile.WithHomePath(w.dir)}
+		"file": linesEv(w.lines), "mt": []int{w.sec, w.ms}, "layout": w.layout})
+	opts := []conffile.FileConfigOption{conffile.WithHomePath(w.home)}
+	if w.gate {
+		opts = append(opts, conffile.WithParser(&gateParser{inner: conffile.NewDefaultFileParser(), w: w}))
+	}
 	if nobs > 0 {
 		ob := config.NewConfigObserver()
 		for i := 0; i < nobs; i++ {
-			ob.Add(fmt.Sprint("obs", i), &recObs{&w.notes})
+			ob.Add(fmt.Sprint("obs", i), &recObs{&w.notes, w})
 		}
 		opts = append(opts, conffile.WithConfigObserver(ob))
 	}
@@ -185,6 +220,13 @@ func (w *world) reset(gen string, cas int, pre, suf string, excl []string, nobs 
 		opts = append(opts, conffile.WithExcludeKeys(excl))
 	}
 	w.notes = nil
+	if w.gate {
+		var conf *conffile.FileConfig
+		if w.poll("New", plan, func() { conf = conffile.NewFileConfigForVerif(opts...) }, func() config.Config { return conf }) {
+			w.conf = conf
+		}
+		return
+	}
 	if msg := core.Guard(func() { w.conf = conffile.NewFileConfigForVerif(opts...) }); msg != "" {
 		w.t.Emit(core.Ev{"ev": "Panic", "in": "New", "msg": msg})
 		return
@@ -207,6 +249,10 @@ func (w *world) edit() {
 }
 
 func (w *world) reload() {
+	if w.gate {
+		w.poll("Reload", pollPlan{}, func() { w.conf.ReloadNowForVerif() }, func() config.Config { return w.conf })
+		return
+	}
 	if msg := core.Guard(func() { w.conf.ReloadNowForVerif() }); msg != "" {
 		w.t.Emit(core.Ev{"ev": "Panic", "in": "Reload", "msg": msg})
 		return
@@ -486,6 +532,7 @@ func histEdit(c *core.Ctx, t *core.Trace, gen string, cas int) {
 	r := c.Rng(gen, cas)
 	w := newWorld(c, t, r)
 	defer w.done()
+	w.useLayout(worldLayouts[r.Intn(len(worldLayouts))])
 	if r.Intn(6) == 0 {
 		w.eol = "\r\n"
 	}
@@ -583,6 +630,7 @@ func histWb(c *core.Ctx, t *core.Trace, gen string, cas int, md wbMode) {
 	r := c.Rng(gen, cas)
 	w := newWorld(c, t, r)
 	defer w.done()
+	w.useLayout(worldLayouts[r.Intn(len(worldLayouts))])
 	w.final = r.Intn(6) != 0
 	if r.Intn(8) == 0 {
 		w.eol = "\r\n"
@@ -673,7 +721,7 @@ func Run(c *core.Ctx) error {
 	for _, e := range []string{"WHATAP_HOME", "WHATAP_CONFIG_HOME", "WHATAP_CONFIG"} {
 		os.Unsetenv(e)
 	}
-	c.Rule = "histories of external edits (7 line forms of the properties syntax, 11 value classes, several edits per second), reloads, 11 getter kinds with defaults, observers, write-backs with prefix/suffix/exclusions; the write-back's system calls under strace; 8 readers against the reloading goroutine; a history is non-trivial if it has an edit followed by a reload or a write-back; distinct by its sequence of step kinds"
+	c.Rule = "histories of external edits (7 line forms of the properties syntax, 11 value classes, several edits per second), reloads, 11 getter kinds with defaults, observers, write-backs with prefix/suffix/exclusions; reloads taken apart at the parser and at the observers with edits, getters and write-backs between their steps (gen ilv: non-trivial if an edit or write-back fell inside a reload); the configuration file reached through 7 (in-process) / 12 (strace) layouts of links, relative paths and environment variables; the write-back's system calls under strace; 8 readers against the reloading goroutine; a history is non-trivial if it has an edit followed by a reload or a write-back; distinct by its layout and sequence of step kinds"
 	t := c.Trace("c18_conf", "Trace_FileConfig")
 	tf := c.Trace("c18_fs", "Trace_FsWrite")
 
@@ -709,6 +757,21 @@ func Run(c *core.Ctx) error {
 		// values that need the syntax's escapes: a leading blank, two backslashes
 		histWitness(c, t, "kf_wbescape", "a=1\n", map[string]string{"greeting": " hello", "path": "two\\\\slashes"})
 	}
+	if c.WantGen("ilv") {
+		md := wbMode{forms: allForms, exoticKeys: true, plainVals: false}
+		if hasKF(c, kfLineSyntax) {
+			md.forms = plainForms
+		}
+		if hasKF(c, kfEscaping) {
+			md.exoticKeys, md.plainVals = false, true
+		}
+		n := c.Pick(120, 800)
+		for cas := 0; cas < n; cas++ {
+			if c.Want("ilv", cas) {
+				histIlv(c, t, "ilv", cas, md)
+			}
+		}
+	}
 	if c.WantGen("conc") {
 		n := c.Pick(1, 3)
 		for cas := 0; cas < n; cas++ {
@@ -720,7 +783,7 @@ func Run(c *core.Ctx) error {
 		}
 	}
 	if c.WantGen("sys") {
-		if err := genSys(c, tf, "sys", c.Pick(12, 60)); err != nil {
+		if err := genSys(c, tf, "sys", c.Pick(24, 72)); err != nil {
 			return err
 		}
 	}
